@@ -117,6 +117,15 @@ def rule_WT1(ctx, tier):
         rr.ok("Endpoint paths distinct: %s" % sorted(strs), nontrivial=False)
     else:
         rr.fail("endpoint-strings", "Endpoint::fmt yields %s" % strs, where=ed.span)
+    # ... and the parsing step takes whatever arrived: process_post_response hands the response to `json()` without looking at its
+    # status, headers or length first (replies are not bounded by any request limit: get_subscription_info lists every locator)
+    for fid in [x for x in P.bodies if x.startswith("watchtower_plugin::net::http::process_post_response")]:
+        fb_ = P.bodies[fid]
+        insp = [call_target(t) for bb, t in fb_.calls() if (call_target(t) or "").startswith("reqwest::Response::") and (call_target(t) or "").split("::")[-1] in ("status", "error_for_status", "error_for_status_ref", "headers", "content_length")]
+        if insp:
+            rr.fail("response-filtered-before-parsing:process_post_response", "`process_post_response` looks at `%s` of a response that did arrive and can turn it into an error without parsing the body: a legitimate reply (a long locator list, the tower's own error object) never reaches the caller" % ", ".join(sorted({shortfn(x) for x in insp})), where=fb_.span)
+        elif any((call_target(t) or "").endswith("reqwest::Response::json") for bb, t in fb_.calls()):
+            rr.ok("process_post_response parses the body of whatever arrived")
     rr.require_floor(13, "WT1 instances")
     # whatever the tower answered reaches the parser: once `send()` succeeded, `request` hands the response on as it is — the
     # HTTP status is advisory, the JSON body (ApiError / reply) is the answer, also for the tower's own 503
@@ -282,7 +291,18 @@ def rule_WT2(ctx, tier):
         errs = {bb for bb, t in b_.calls() if (call_target(t) or "").endswith("::from_residual")}
         heads = [bb for bb in b_.rpo() if is_iter_next(b_, bb)]
         some_edges = [succ for h in heads for sw, succ in switch_succ_with(ctx, b_, "variant", "Some", "next") if succ in b_.reachable(h)]
-        if heads and some_edges and emits and all(always_reaches(b_, [e_], emits | errs, lambda x: x in heads) for e_ in some_edges):
+        # iterator form: the emitting call sits in a closure handed to try_for_each / for_each / try_fold over the collection
+        closure_form = False
+        for bb, t in b_.calls():
+            if (call_target(t) or "").split("::")[-1] in ("try_for_each", "for_each", "try_fold", "fold"):
+                for i in range(len(t["args"])):
+                    a_ = arg_origin(ctx, b_, bb, i)
+                    if isinstance(a_, tuple) and a_ and a_[0] == "closure" and a_[1] in P.bodies:
+                        cb_ = P.bodies[a_[1]]
+                        cem = [x for x, t2 in cb_.calls() if (call_target(t2) or "").split("::")[-1] in ("serialize_element", "serialize_entry")]
+                        if cem and always_reaches(cb_, [0], set(cem)):
+                            closure_form = True
+        if closure_form or (heads and some_edges and emits and all(always_reaches(b_, [e_], emits | errs, lambda x: x in heads) for e_ in some_edges)):
             rr.ok("%s emits one element per turn" % shortfn(bid))
         else:
             rr.fail("serialiser-drops-elements:%s" % shortfn(bid), "`%s` opens a sequence / map but a turn of its loop can pass without serialize_element / serialize_entry: the reply lists fewer items than the tower (or client) holds" % shortfn(bid), where=b_.span)
